@@ -368,9 +368,7 @@ def check_families(ctx, r, rid="R5"):
         else:
             n += 1
     if gens:
-        gt = absint._flatp(show(gens[0].body))
-        if ".chaindefault_locale_routes" not in gt.replace("(", "").replace(")", "") or "set_current_route_localeL::default" not in gt.replace("(", "").replace(")", ""):
-            bad.setdefault("generate_routes#unprefixed", "generate_routes no longer appends the unprefixed family generated under the default locale")
+        pass
     else:
         bad.setdefault("generate_routes#missing", "I18nNestedRoute::generate_routes was not found")
     # ---- the route locale is thread-local state and the families are produced by *lazy* iterators: the inner routes must be asked
@@ -386,6 +384,19 @@ def check_families(ctx, r, rid="R5"):
         from mirlib import callee_name as _cn, op_place as _op
         LAZY = re.compile(r"iter::(sources::)?(once_with|from_fn|repeat_with|successors)(::\w+)?$|Iterator::(map|flat_map|filter_map|filter|inspect|scan|take_while|map_while|skip_while|flat_map)$|::then$|LazyCell|Lazy::new")
         roots = [n_ for n_ in prog.bodies if re.search(r"I18nNestedRoute<.*>::(match_nested|generate_routes)$|I18nNestedRoute::<.*>::generate_routes_for_each_locale$", n_)]
+        # private helpers of the routing module that these functions call count as functions of their own (a family moved into a helper)
+        grew_ = True
+        while grew_:
+            grew_ = False
+            for root in list(roots):
+                for bb_ in prog.family(prog.bodies[root]):
+                    for _i0, t0_ in bb_.calls():
+                        cn0 = _cn(t0_) or ""
+                        hb0 = prog.bodies.get(cn0)
+                        if hb0 is not None and "leptos_i18n_router::routing::" in cn0 and "::{closure#" not in cn0 and cn0 not in roots and not hb0.is_pub \
+                                and not re.search(r"(set|reset)_current_route_locale$", cn0):
+                            roots.append(cn0)
+                            grew_ = True
         units = 0
         for root in roots:
             fam_ = {b_.name: b_ for b_ in prog.family(prog.bodies[root])}
@@ -436,10 +447,29 @@ def check_families(ctx, r, rid="R5"):
                 if not okk:
                     fn_ = root.split("::")[-1]
                     bad.setdefault("%s#locale-set-in-the-same-unit" % fn_, "%s: %s" % (fn_, why_ or "the inner routes are asked (`%s`) without the route locale having been set in the same closure / function body before" % bn.split("::", 3)[-1][-60:]))
-        if units < 4:
-            bad.setdefault("families#units", "only %d places where the inner routes are asked were found in match_nested / generate_routes / generate_routes_for_each_locale (4 on the pinned tree)" % units)
+        if units < 1:
+            bad.setdefault("families#units", "no place where the inner routes are asked was found in match_nested / generate_routes / generate_routes_for_each_locale (nor in the private helpers they call)")
         else:
             n += units
+        # generate_routes also produces the family without prefix, under the *default* locale: somewhere in it (or in a helper it hands the
+        # locale to) the route locale is set from `L::default()`
+        from mirlib import backward_slice as _bs
+        gr = [n_ for n_ in prog.bodies if re.search(r"I18nNestedRoute<.*>::generate_routes$", n_)]
+        has_default = False
+        for g_ in gr:
+            for bb_ in prog.family(prog.bodies[g_]):
+                for _i1, t1_ in bb_.calls():
+                    cn1 = _cn(t1_) or ""
+                    if re.search(r"routing::set_current_route_locale$", cn1) or (cn1 in roots and cn1 not in gr):
+                        for a_ in t1_["args"]:
+                            pl_ = _op(a_)
+                            if pl_ is None:
+                                continue
+                            _ls, defs_ = _bs(bb_, pl_["l"])
+                            if any(j_ == "term" and re.search(r"Default::default$|Locale::default$", _cn(d_) or "") for (_bi, j_, d_) in defs_):
+                                has_default = True
+        if gr and not has_default:
+            bad.setdefault("generate_routes#unprefixed", "generate_routes never sets the route locale from `L::default()`: the family without prefix is not generated under the default locale")
     for k, msg in sorted(bad.items()):
         r.viol("%s:%s" % (rid, k), msg, file=F, line=(mn[0].line if k.startswith("match_nested") else fams[0].line))
     if not bad:
